@@ -13,7 +13,7 @@ RULE = (
     "Non-trivial = at least one registration ended by a cause other than shutdown, or triggers overlapped an unacknowledged notification; distinct = distinct tuples of (registration type, reaction script, special event, trigger gap classes)"
 )
 ASSUMPTIONS = ["default TransportTuning", "the test resource derives from aiocoap.resource.ObservableResource and wraps the cancellation callback it hands to accept()"]
-REQUIRED_MONITORS = {"explicit_final_during_render": 20, "token_and_rising_observe": 300, "latest_state": 60, "end_cause": 300, "nothing_after_end": 300, "callback_once": 300, "count_returns": 200, "mixed_reliability_notification": 300, "slow_add_observation": 40, "kept_response_object_returned_again": 300, "rising_observe_with_kept_object": 300, "last_trigger_render": 20, "last_trigger_push-kept": 20, "last_trigger_push-new": 15, "last_trigger_with_kept_object": 8}
+REQUIRED_MONITORS = {"explicit_final_during_render": 20, "token_and_rising_observe": 300, "latest_state": 60, "end_cause": 300, "nothing_after_end": 300, "callback_once": 300, "count_returns": 200, "mixed_reliability_notification": 300, "slow_add_observation": 40, "kept_response_object_returned_again": 300, "rising_observe_with_kept_object": 300, "last_trigger_render": 20, "last_trigger_push-kept": 20, "last_trigger_push-new": 8, "last_trigger_with_kept_object": 8}
 
 KNOWN_KEYS = ("rst-to-non-notification-ignored", "queued-notification-sent-after-end")
 
